@@ -129,6 +129,40 @@ def rand_circuit(rs, scope, kinds=("bern",), clt=0.0, share=0.3, depth=0, pool=N
     return n
 
 
+def rand_nested_mixture(rs, clt=0.3):
+    """mixtures nested over SEVERAL levels that share components across levels (M = Sum[X, Q], Q = Sum[X, Z], ...: a
+    component listed before / after the nested mixture that uses it again), next to an independent factor under a product.
+    Unpruned on purpose: sums directly below sums."""
+    nv = int(rs.randint(1, 4)); base = int(rs.randint(0, 3))
+    scope = [base + i for i in range(nv)]
+    def component():
+        if nv >= 2 and rs.rand() < clt:
+            return rand_clt(rs, scope)
+        ls = [Bernoulli(v, float(rs.randint(1, 16) / 16.0)) for v in scope]
+        return ls[0] if nv == 1 else Product(children=ls)
+    comps = [component() for _ in range(int(rs.randint(2, 5)))]
+    built = []
+    for level in range(int(rs.randint(2, 5))):
+        cand = comps + built
+        k = int(rs.randint(2, min(4, len(cand)) + 1))
+        ch = [cand[i] for i in rs.choice(len(cand), size=k, replace=False)]
+        if built and built[-1] not in ch:
+            ch[int(rs.randint(k))] = built[-1]            # the tower stays connected
+        ch = [ch[i] for i in rs.permutation(len(ch))]
+        if len(set(map(id, ch))) != len(ch):
+            ch = list({id(c): c for c in ch}.values())
+        if len(ch) < 2:
+            ch = ch + [component()]
+        built.append(Sum(children=ch, weights=np.array(dyadic_weights(rs, len(ch)), dtype=np.float32)))
+    top = built[-1]
+    other = [base + nv + 1 + i for i in range(int(rs.randint(1, 3)))]
+    factor = Sum(children=[Product(children=[Bernoulli(v, float(rs.randint(1, 16) / 16.0)) for v in other]) if len(other) > 1
+                           else Bernoulli(other[0], float(rs.randint(1, 16) / 16.0)) for _ in range(2)],
+                 weights=np.array(dyadic_weights(rs, 2), dtype=np.float32))
+    kids = [top, factor] if rs.rand() < 0.5 else [factor, top]
+    return Product(children=kids)
+
+
 def rand_scope(rs, nv, spread=3, contiguous=False):
     if contiguous:
         return [int(v) for v in rs.permutation(nv)]
